@@ -13,9 +13,12 @@ Independently of the model it evaluates the conclusion of theorem c06_ub_exposed
 and the loop facts of c06_run_global_exposures (UpperBound callbacks <= maxNbSteps - nbInitialSteps + 1; a PenaltyUpdate callback
 exposes the integers of the preceding UpperBound callback).
 
-Library: run_compose(ctx, count=..., seed=None, lines=None, K=2) -> dict; keys `mismatch` (broken correspondence: list of (case line,
+Library: run_compose(ctx, count=30, seed=None, lines=None, K=2, max_exposures=80, offset=0) -> dict; keys `mismatch` (broken correspondence: list of (case line,
 what)), `statement_fail` (the C++ output violates the theorem's conclusion inside its hypotheses: real violation with its input),
-counters.  Stand-alone: python3 -m checks.c06_compose [seed] [count]."""
+counters.  Stand-alone: python3 -m checks.c06_compose [seed] [count] [offset]; python3 -m checks.c06_compose witness (the in-range
+circuit of c06_half_unit_slack_attained_in_range through Circuit::placeGlobal and through the tie).
+The default streams stay within |coordinates| <= 2^22 (offset 0).  `half_unit_uses_positive_area` counts cells of positive area exposed
+exactly 1/2 outside the rows' bounding box: allowed by the theorem (odd placed size), 0 on the default streams, 2 on the witness."""
 import re
 import struct
 import sys
@@ -121,12 +124,13 @@ def gal_exposure(c, e):
     view = "{| v_x := [%s]; v_y := [%s]; v_cells := [%s] |}" % (
         "; ".join(z(v) for v in e["vx"]), "; ".join(z(v) for v in e["vy"]),
         "; ".join("[" + "; ".join("[" + "; ".join("%d%%nat" % k for k in b) + "]" for b in col) + "]" for col in e["bins"]))
-    return ("let rows := %s in let cells : list ccell := %s in let v := %s in "
-            "let u := ub_coords %s rows cells v [%s] [%s] in "
+    # beta-redexes, not let-ins: with `let u := .. in ..` Coq also normalises the (let-dependent) TYPE of the result, 10x slower
+    return ("(fun (rows : list row) (cells : list ccell) (v : view) => (fun (u : list f32 * list f32) => "
             "(view_of_circuit %s %s rows cells v, view_shape v, grid_of_circuit %s %s rows cells, circuit_grid_area %s rows cells, "
-            "map cell_demand cells, map B2SF (fst u), map B2SF (snd u), export_placement_f cells (fst u) (snd u))"
-            % (rows, cells, view, z(c["margin"]), "; ".join(f32_gallina(b) for b in e["tx"]), "; ".join(f32_gallina(b) for b in e["ty"]),
-               z(c["margin"]), z(c["maxsize"]), z(c["margin"]), z(c["maxsize"]), z(c["margin"])))
+            "map cell_demand cells, map (@B2SF 24 128) (fst u), map (@B2SF 24 128) (snd u), export_placement_f cells (fst u) (snd u))) "
+            "(ub_coords %s rows cells v [%s] [%s])) %s %s %s"
+            % (z(c["margin"]), z(c["maxsize"]), z(c["margin"]), z(c["maxsize"]), z(c["margin"]), z(c["margin"]),
+               "; ".join(f32_gallina(b) for b in e["tx"]), "; ".join(f32_gallina(b) for b in e["ty"]), rows, cells, view))
 
 
 def parse_model(out):
@@ -165,13 +169,35 @@ def hypotheses(c, e):
     return True, ""
 
 
-def run_compose(ctx, count=40, seed=None, lines=None, K=2, max_exposures=70):
+def shift_line(line, dx, dy):
+    """a GP case line with rows and (nearby) cells translated by (dx, dy)"""
+    t = line.split()
+    v = [int(x) for x in t[1:]]
+    p = 1
+    for _ in range(v[0]):
+        v[p] += dx; v[p + 1] += dx; v[p + 2] += dy; v[p + 3] += dy
+        p += 5
+    nc = v[p]
+    p += 1
+    for _ in range(nc):
+        if abs(v[p]) < 200000 and abs(v[p + 1]) < 200000:
+            v[p] += dx; v[p + 1] += dy
+        p += 8
+    return t[0] + " " + " ".join(str(x) for x in v)
+
+
+def run_compose(ctx, count=30, seed=None, lines=None, K=2, max_exposures=80, offset=0):
+    """count: runs of stream gp (+ count // 6 >= 2 of stream gpn, no free capacity); K: exposures recorded per run (first K-1 and the
+    last); max_exposures: cap on the exposures evaluated inside Coq (about 0.3-1 s each); offset: translate rows and cells by
+    (offset, offset) (2^23 shows the half-unit uses of cells of positive area)"""
     seed = (ctx.seed if ctx is not None else 1) if seed is None else seed
     gen = common.build_harness("global")
     har = common.build_harness("gcompose")
     if lines is None:
         ncap = max(2, count // 6)
         lines = common.harness_gen(gen, ["gp", seed + 606, count, 0]) + common.harness_gen(gen, ["gpn", seed + 607, ncap, 0])
+        if offset:
+            lines = [shift_line(l, offset, offset) for l in lines]
     impl, _, errs = common.run_both([har, "run", str(K)], None, lines)
     res = {"runs": 0, "runs_skipped_or_stopped": 0, "exposures_recorded": 0, "exposures_evaluated_in_coq": 0, "exposures_skipped_large": 0,
            "spread_coordinates_compared_bit_for_bit": 0, "exported_integers_compared": 0, "movable_cells_judged": 0,
@@ -275,6 +301,17 @@ def run_compose(ctx, count=40, seed=None, lines=None, K=2, max_exposures=70):
     return res
 
 
+def inrange_witness_line():
+    """the circuit of theorem c06_half_unit_slack_attained_in_range as a GP case line (|coordinates| <= 2^22): one row
+    [0,45] x [2^22-9, 2^22], 45 movable cells 1 x 9 tied to one fixed pad, default parameters: at every UpperBound callback one cell
+    of POSITIVE area is exposed with its centre 1/2 above the rows' bounding box (harness global: excPos = number of callbacks)"""
+    hi, h, n = 1 << 22, 9, 45
+    lo = hi - h
+    cells = ["%d %d 1 %d 0 0 0 0" % (k, lo, h) for k in range(n)] + ["20 %d 0 0 0 0 1 0" % (lo + 4)]
+    nets = ["2 %d 0 %d %d 0 0 2" % (k, k % h, n) for k in range(n)]
+    return "GP 1 0 45 %d %d 0 %d %s %d %s 1 0 1 0 6 20 400 2 1 2 1 2 1 0 1 50 99 40" % (lo, hi, n + 1, " ".join(cells), n, " ".join(nets))
+
+
 def summary(res):
     return {k: v for k, v in res.items() if k not in ("mismatch", "statement_fail")} | {
         "mismatches": len(res["mismatch"]), "statement_failures": len(res["statement_fail"])}
@@ -282,10 +319,18 @@ def summary(res):
 
 if __name__ == "__main__":
     import time
+    if len(sys.argv) > 1 and sys.argv[1] == "witness":
+        import subprocess
+        out = subprocess.run([common.build_harness("global"), "run"], input=inrange_witness_line() + "\n", capture_output=True, text=True).stdout
+        print(" | ".join(out.split(" | ")[:4])[:300])
+        r = run_compose(None, lines=[inrange_witness_line()], K=3)
+        print(summary(r))
+        sys.exit(0)
     sd = int(sys.argv[1]) if len(sys.argv) > 1 else 1
-    cnt = int(sys.argv[2]) if len(sys.argv) > 2 else 40
+    cnt = int(sys.argv[2]) if len(sys.argv) > 2 else 30
+    off = int(sys.argv[3]) if len(sys.argv) > 3 else 0
     t0 = time.time()
-    r = run_compose(None, count=cnt, seed=sd)
+    r = run_compose(None, count=cnt, seed=sd, offset=off)
     print(summary(r))
     for x in r["mismatch"][:5]:
         print("MISMATCH", x[1][:600], "\n   case:", x[0][:200])
